@@ -17,6 +17,7 @@ references is recomputed in a genuinely fresh interpreter under a random PYTHONH
 
 from __future__ import annotations
 
+import copy
 import errno
 import json
 import os
@@ -101,6 +102,29 @@ def make_plan(seed: int, tier: str, index: int) -> dict[str, Any]:
         bom = g.random() < 0.2
         corpus.append({"id": i, "kind": "ok", "text": text, "bom": bom,
                        "headers": [t[0] for t in d["tracks"]], "resolution": d["resolution"]})
+    # same-length siblings: another well-formed text with the same number of bytes (one tempo
+    # value changed to another one with as many digits), for "file replaced in place" histories
+    siblings: dict[int, int] = {}
+    for i in range(n_ok):
+        if g.random() < 0.5:
+            d2 = copy.deepcopy(docs[i])
+            ti = g.randrange(len(d2["tempos"]))
+            old = d2["tempos"][ti][1]
+            cands = [b for b in gen.BPM_POOL if len(str(b)) == len(str(old)) and b != old]
+            if not cands:
+                continue
+            d2["tempos"][ti][1] = g.choice(cands)
+            c0 = corpus[i]
+            nl0 = "\r\n" if "\r\n" in c0["text"] else "\n"
+            t2 = gen.render(d2, newline=nl0)
+            if len(t2.encode("utf-8")) != len(c0["text"].encode("utf-8")) or t2 == c0["text"]:
+                continue
+            docs.append(d2)
+            corpus.append({"id": len(corpus), "kind": "ok", "text": t2, "bom": c0["bom"],
+                           "headers": list(c0["headers"]), "resolution": d2["resolution"],
+                           "same_length_as": i})
+            siblings[i] = len(corpus) - 1
+    n_ok = len(corpus)
     for j in range(g.choice([0, 1, 1, 2])):
         kind, text, exc = gen.failing_variant(g, g.choice(docs))
         corpus.append({"id": n_ok + j, "kind": kind, "text": text, "bom": False, "headers": [],
@@ -139,8 +163,29 @@ def make_plan(seed: int, tier: str, index: int) -> dict[str, Any]:
             op["select"] = _gen_selection(p, c["headers"]) if c["kind"] == "ok" else None
             ops.append(op)
         clients.append(ops)
-    all_ops = [(ci, k, op) for ci, ops in enumerate(clients) for k, op in enumerate(ops)]
     knobs: dict[str, Any] = {}
+    if siblings and sub in ("none", "cache_clear", "long") and p.random() < 0.5:
+        # disk history: the same path is replaced in place by another text of the same length
+        # (and, the simulation having no clock, the same modification time) between two parses
+        knobs["path_slots"] = 2
+        for ci, ops in enumerate(clients):
+            for op in ops:
+                if op["via"] == "path":
+                    op["slot"] = p.randrange(2)
+            if p.random() < 0.7:
+                a = p.choice(sorted(siblings))
+                b = siblings[a]
+                if p.random() < 0.5:
+                    a, b = b, a
+                slot = p.randrange(2)
+                pos = p.randint(0, len(ops))
+                pair = [{"op": "parse", "text": t, "via": "path", "select": None, "slot": slot}
+                        for t in (a, b)]
+                if p.random() < 0.3:
+                    pair.insert(1, {"op": "parse", "text": p.choice(corpus)["id"], "via": "path",
+                                    "select": None, "slot": 1 - slot})
+                ops[pos:pos] = pair
+    all_ops = [(ci, k, op) for ci, ops in enumerate(clients) for k, op in enumerate(ops)]
     if sub == "io":
         for _ci, _k, op in all_ops:
             if op["via"] == "path" or op.get("reader") in ("textio", "codecs", "simtext"):
@@ -156,6 +201,14 @@ def make_plan(seed: int, tier: str, index: int) -> dict[str, Any]:
         for op in f.sample(cand, min(len(cand), f.randint(1, 2))):
             op["io"] = {"reads": [f.choice([1, 16, 64, 4096])], "eio_at": f.randint(1, 4)}
             op["eio"] = True
+    elif sub == "abort" and f.random() < 0.3:
+        # crash points aimed at COLD code: lines that only the first parse of a process executes
+        # (lazy initialisation, cache fills); found per run by tracing two parses in a pristine
+        # forked process.  Armed on the first operation of every client.
+        knobs["cold_abort"] = True
+        for ops in clients:
+            ops[0]["abort"] = {"cold": True, "at": f.choice([1, 1, 2, 3, 5, 8, 13, 21, 40]),
+                               "exc": f.choice(["SimAbort", "MemoryError", "MemoryError"])}
     elif sub == "abort":
         for _ci, _k, op in f.sample(all_ops, min(len(all_ops), f.randint(1, 3))):
             op["abort"] = {"at": int(f.choice([f.randint(1, 50), f.randint(1, 800),
@@ -217,7 +270,7 @@ def make_plan(seed: int, tier: str, index: int) -> dict[str, Any]:
         if "est_steps" in schedule:
             schedule["est_steps"] *= 4
         for _ci, _k, op in all_ops:
-            if op.get("abort") and not op["abort"].get("in"):
+            if op.get("abort") and not op["abort"].get("in") and not op["abort"].get("cold"):
                 op["abort"]["at"] *= 4
     plan: dict[str, Any] = {"property": PROP, "seed": seed, "sub_batch": sub, "corpus": corpus,
                             "clients": clients, "schedule": schedule, "knobs": knobs}
@@ -252,6 +305,46 @@ def _reference(op: dict[str, Any], data: bytes) -> dict[str, Any]:
 
     shutil.rmtree(fs.root, ignore_errors=True)
     return out
+
+
+def _cold_lines(op: dict[str, Any], data: bytes) -> list[list[Any]]:
+    """Lines of the package that the FIRST parse of a process executes and the second does not
+    (runs in a pristine forked grandchild): lazy initialisation, cache fills."""
+    import sys
+
+    from detsim import world
+
+    world.install_log_sink()
+    prefix = os.path.join(env.PKG_DIR, "")
+    seen: list[set[tuple[str, int]]] = [set(), set()]
+    cur = [0]
+
+    def local(frame: Any, event: str, arg: Any) -> Any:
+        if event == "line":
+            seen[cur[0]].add((os.path.basename(frame.f_code.co_filename), frame.f_lineno))
+        return local
+
+    def glob(frame: Any, event: str, arg: Any) -> Any:
+        return local if frame.f_code.co_filename.startswith(prefix) else None
+
+    fs = simfs.SimFS(os.path.join(env.scratch(), "simfs", f"cold-{os.getpid()}"))
+    fs.install()
+    try:
+        for i in (0, 1):
+            cur[0] = i
+            sys.settrace(glob)
+            try:
+                parseop.do_parse(fs, op, data, f"cold{i}", faults=False)
+            except BaseException:  # noqa: BLE001
+                pass
+            finally:
+                sys.settrace(None)
+    finally:
+        fs.uninstall()
+    import shutil
+
+    shutil.rmtree(fs.root, ignore_errors=True)
+    return [list(x) for x in sorted(seen[0] - seen[1])]
 
 
 def _fresh_reference(op: dict[str, Any], data: bytes, hashseed: int) -> dict[str, Any]:
@@ -343,6 +436,15 @@ def execute(plan: dict[str, Any]) -> dict[str, Any]:
     except (runner.ChildFailure, HarnessError, subprocess.TimeoutExpired) as e:
         harness_error = f"reference computation failed: {e}"
 
+    cold_lines: list[list[Any]] | None = None
+    if harness_error is None and (plan.get("knobs") or {}).get("cold_abort"):
+        try:
+            op0 = plan["clients"][0][0]
+            cold_lines = runner.in_fork(_cold_lines, {k: v for k, v in op0.items() if k != "abort"},
+                                        data_of[op0["text"]], timeout=120)
+            probes["cold_only_lines"] = len(cold_lines)
+        except runner.ChildFailure as e:
+            harness_error = f"cold-line computation failed: {e}"
     if harness_error is not None:
         return {"violations": [], "digest": "", "evals": 1, "harness_error": harness_error}
 
@@ -375,6 +477,8 @@ def execute(plan: dict[str, Any]) -> dict[str, Any]:
                 data = data_of[op["text"]]
                 texts_used.add(op["text"])
                 abort = op.get("abort")
+                if abort and abort.get("cold"):
+                    abort = {**abort, "cold_lines": cold_lines or []}
                 if abort:
                     configured["abort"] = configured.get("abort", 0) + 1
                 if op.get("eio"):
@@ -394,6 +498,10 @@ def execute(plan: dict[str, Any]) -> dict[str, Any]:
                     cf_kind, cf_exc = "log", make_abort_exc(op["log_fault"]["exc"])
                 if cf_kind:
                     configured["caller_" + cf_kind] = configured.get("caller_" + cf_kind, 0) + 1
+                stored_path = fs.path(parseop.stored_name(op, f"c{ci}o{k}") + ".chart")
+                eio_before = fs.eio_raised.count(stored_path)
+                if op.get("slot") is not None:
+                    probes["parses_of_a_replaced_path"] = probes.get("parses_of_a_replaced_path", 0) + 1
                 sched.begin_op(client, k, abort)
                 client.log_fault = ({"at": int(op["log_fault"]["at"]), "exc": cf_exc, "seen": 0,
                                      "fired": False} if cf_kind == "log" else None)
@@ -433,6 +541,8 @@ def execute(plan: dict[str, Any]) -> dict[str, Any]:
                     if aborted:
                         kind = "abort_" + abort["exc"]
                         fired[kind] = fired.get(kind, 0) + 1
+                        if abort.get("cold"):
+                            fired["abort_on_cold_line"] = fired.get("abort_on_cold_line", 0) + 1
                         where = client.abort_fired_at.split(":")[-1]
                         probes["abort_in:" + where] = probes.get("abort_in:" + where, 0) + 1
                         sched.record("op", ci, k, "aborted", client.abort_fired_at)
@@ -442,7 +552,7 @@ def execute(plan: dict[str, Any]) -> dict[str, Any]:
                                 f"{client.abort_fired_at} (op step {abort['at']}) was swallowed and the "
                                 f"parse returned a chart that differs from the fresh-process parse")
                         continue
-                    if op.get("eio") and fs.path(f"c{ci}o{k}.chart") in fs.eio_raised:
+                    if op.get("eio") and fs.eio_raised.count(stored_path) > eio_before:
                         ok = isinstance(err, OSError) and err.errno == errno.EIO
                         fired["eio"] = fired.get("eio", 0) + 1
                         sched.record("op", ci, k, "eio", ok)
@@ -584,7 +694,7 @@ def shrink(plan: dict[str, Any]):
     # drop faults / knobs
     for ci, ops in enumerate(clients):
         for k, op in enumerate(ops):
-            for fk in ("abort", "io", "eio", "log_fault", "sel_fault", "reader_fault", "select"):
+            for fk in ("abort", "io", "eio", "log_fault", "sel_fault", "reader_fault", "slot", "select"):
                 if op.get(fk) is not None:
                     op2 = {a: b for a, b in op.items() if a != fk}
                     if fk == "select":
